@@ -27,6 +27,8 @@ func propC14() Property {
 			{ID: "C14-R3", Desc: "integer scanner: digits only, non-empty, sign only in front, accumulation guarded", Min: 4, Run: c14R3},
 			{ID: "C14-R4", Desc: "float whitelist: digits, '.', '-' only, before the value is stored", Min: 3, Run: c14R4},
 			{ID: "C14-R5", Desc: "timestamp writers format the UTC wall clock", Min: 1, Run: c14R5},
+			{ID: "C14-R9", Desc: "decimals are rendered by the decimal type, never through float64", Min: 2, Run: c14R9},
+			{ID: "C14-R8", Desc: "a float is written as FormatFloat(receiver, 'f', -1, 64)", Min: 1, Run: c14R8},
 			{ID: "C14-R7", Desc: "timestamp fraction separator is '.', never time.Parse's comma", Min: 3, Run: c14R7},
 			{ID: "C14-R6", Desc: "negative integers: scanner limit is the positive limit plus one", Min: 1, Run: c14R6},
 		},
@@ -211,6 +213,8 @@ func propC18() Property {
 			{ID: "C18-R4", Desc: "wall-clock components are read in the configured zone", Min: 6, Run: c18R4},
 			{ID: "C18-R5", Desc: "no decision arm of the schedule code is dead by contradiction", Min: 10, Run: c18R5},
 			{ID: "C18-R6", Desc: "start/end time comparisons have one polarity (start < end)", Min: 2, Run: c18R6},
+			{ID: "C18-R10", Desc: "weekday membership does not depend on the order of the list", Min: 1, Run: c18R10},
+			{ID: "C18-R9", Desc: "configured times of day are compared with the wall clock of the instant", Min: 4, Run: c18R9},
 			{ID: "C18-R8", Desc: "weekly close on the end day depends on the end time", Min: 1, Run: c18R8},
 			{ID: "C18-R7", Desc: "overnight weekday attribution; wall-clock from one time-of-day", Min: 3, Run: c18R7},
 		},
@@ -585,12 +589,31 @@ func c18R4(c *Ctx) {
 			}
 			n++
 			ro := p.Origin(cl.Common().Args[0])
-			ok := ro.All(func(x *Org) bool {
+			var inZone func(x *Org, depth int) bool
+			inZone = func(x *Org, depth int) bool {
 				if x.IsCallTo("(time.Time).In") && len(x.Args) == 1 {
 					return x.Args[0].Kind == "field" || x.Args[0].Kind == "deref" || x.Args[0].Mentions(func(y *Org) bool { return y.Kind == "field" })
 				}
-				return x.IsCallTo("time.Date")
-			})
+				if x.IsCallTo("time.Date") {
+					return true
+				}
+				// a parameter of an unexported helper: converted by every caller
+				if x.Kind == "param" && x.Fn != nil && depth < 2 && x.Fn.Object() != nil && !x.Fn.Object().Exported() {
+					sites := p.CallsTo(x.Fn)
+					if len(sites) == 0 {
+						return false
+					}
+					for _, cs := range sites {
+						args := cs.Call.Common().Args
+						if x.Param >= len(args) || !p.Origin(args[x.Param]).All(func(y *Org) bool { return inZone(y, depth+1) }) {
+							return false
+						}
+					}
+					return true
+				}
+				return false
+			}
+			ok := ro.All(func(x *Org) bool { return inZone(x, 0) })
 			c.Check(ok, FuncName(fn), p.InstrPos(cl.(ssa.Instruction)), "clock-read-in-configured-zone", callName(cl.Common())+" of a time converted to the range's location",
 				callName(cl.Common())+" is read from "+ro.String()+", which is not the instant converted to the schedule's configured location: the weekday (or time of day) is taken in whatever zone the caller's time value happens to carry, so the answer depends on the representation of the instant, not on the configured TimeZone")
 		}
